@@ -9,7 +9,7 @@ from .. import report as R
 from ..report import RuleSpec
 from .. import codec as C
 from .. import noneflow
-from .common import fn_loc, unparse, returns_of
+from .common import fn_loc, unparse, returns_of, as_dict_call
 from . import sm_common as S
 from . import c03
 
@@ -437,8 +437,8 @@ def rule_r7(ctx) -> List[R.Inst]:
         F = Flow()
         it = F.eval(lp.iter)
         F.bind(lp.target, ExprV(it.elem) if isinstance(it, SeqV) else it)
-        dicts = [n for n in ast.walk(lp) if isinstance(n, ast.Call) and call_name_(n) == "dict" and
-                 any(k.arg == "column" for k in n.keywords)]
+        dicts = [as_dict_call(n) for n in ast.walk(lp) if as_dict_call(n) is not None and
+                 any(k.arg == "column" for k in as_dict_call(n).keywords)]
         if len(dicts) != 1:
             insts.append(R.undec(rid, key, file, lp.lineno, "object dict(...) not found"))
             continue
